@@ -304,7 +304,10 @@ theorem powerOn_data (a : Node) : a.powerOn.1.data = a.data := by
 
 theorem powerOff_data (a : Node) : a.powerOff.1.data = a.data := by
   unfold Node.powerOff; split
-  · rfl
+  · dsimp only
+    split
+    · exact powerOn_data _
+    · rfl
   · split <;> rfl
 
 theorem bootPhase_data (a : Node) : a.bootPhase.data = a.data := by
